@@ -175,7 +175,7 @@ def gen_handlers(ch: Chooser, *, causes: tuple[str, ...] = ('create', 'update', 
                 opts['deleted'] = True
             h: dict[str, Any] = {'id': hid, 'kind': cause, 'opts': opts,
                                  'script': common.gen_script(ch, max_failures=max_failures, allow_perm=allow_perm)}
-            if subs and cause in ('create', 'update') and ch.bool(0.35):
+            if subs and cause in ('create', 'update', 'resume') and ch.bool(0.35):
                 h['subs'] = [{'id': f's{k + 1}', 'script': common.gen_script(ch, max_failures=2, allow_perm=allow_perm)}
                              for k in range(ch.int(1, 2))]
                 h['script'] = [{'do': 'ok', 'dur': ch.choice([0.0, 0.1])}]
